@@ -35,10 +35,12 @@ class SimClock(object):
         self.p_jump = p_jump
         self.jumps = 0
         self.reads = 0
+        self.covered = 0.0      # simulated time passed over, forwards or backwards
 
     def time(self):
         self.reads += 1
         self.now += 1e-6
+        self.covered += 1e-6
         if self.p_jump and self.fault is not None and self.fault.chance(self.p_jump, "clock_jump"):
             k = self.fault.choose(12, "jump-size")
             delta = (10.0 ** (k - 5))          # 1e-5 s .. 1e6 s
@@ -47,6 +49,7 @@ class SimClock(object):
             new = self.now + delta
             if 4e7 < new < 2.0e11:
                 self.now = new
+                self.covered += abs(delta)
                 self.jumps += 1
         return self.now
 
